@@ -548,7 +548,7 @@ impl Area for ConfigArea {
         if thorough {
             12_000
         } else {
-            700
+            500
         }
     }
     fn corpus(&self) -> Vec<Vec<String>> {
